@@ -21,6 +21,7 @@ from hypothesis import strategies as st
 
 logging.getLogger("gemseo").setLevel(logging.ERROR)
 warnings.filterwarnings("ignore", message="The balance properties of Sobol")
+warnings.filterwarnings("ignore", category=RuntimeWarning, module="numpy")  # corrcoef of constant columns inside pyDOE
 
 PROPERTY = "C14"
 LEVEL = "exploration"
@@ -69,15 +70,17 @@ MORRIS_INNER = ["PYDOE_LHS", "LHS", "MC", "Halton", "OT_LHS", "OT_MONTE_CARLO", 
 NAMES = ["x", "y", "z", "ab", "k", "var", "x_1", "n1", "zz"]
 FREE_FLOAT = [(0.0, 1.0), (0.0, 1.0), (-1.0, 1.0), (-0.1, 0.7), (0.001, 0.002), (-1000.0, 1000.0), (5.5, 5.5), (-7.3, -7.1), (0.1, 0.3)]
 FREE_INT = [(0, 1), (0, 1), (-5, 5), (3, 3), (0, 100), (-1000, 1000), (-3, -1), (2, 7)]
+# SciPy's PoissonDisk allocates a grid of (sqrt(d)/radius)^d cells: minutes and gigabytes from d = 5 on
+MAX_DIM = {"PoissonDisk": 3}
 SEEDS = st.one_of(st.integers(1, 50), st.integers(1, 2**31 - 2))
 
 
 # --------------------------------------------------------------------------- strategies
 @st.composite
-def spaces(draw, min_dim: int = 1):
+def spaces(draw, min_dim: int = 1, max_dim: int = 5):
     n_vars = draw(st.integers(1, 3))
     sizes = [draw(st.integers(1, 3)) for _ in range(n_vars)]
-    while sum(sizes) > 5:
+    while sum(sizes) > max_dim:
         sizes[sizes.index(max(sizes))] -= 1
     if sum(sizes) < min_dim:
         sizes[-1] += min_dim - sum(sizes)
@@ -114,6 +117,11 @@ def _dim(space) -> int:
     return sum(v["size"] for v in space)
 
 
+def _remainder(m: int):
+    """0..m-1 with the two ends (where an off-by-one in a count formula shows) as likely as the interior."""
+    return st.one_of(st.sampled_from([0, m - 1]), st.integers(0, m - 1))
+
+
 @st.composite
 def settings_for(draw, algo: str, space, with_seed: bool = True):
     """Keyword settings of one algorithm (JSON primitives) valid for the dimension of the space."""
@@ -123,13 +131,14 @@ def settings_for(draw, algo: str, space, with_seed: bool = True):
         s["n_samples"] = draw(st.integers(1, 60))
         if algo in ("Halton", "Sobol", "LHS") and draw(st.booleans()):
             s["scramble"] = draw(st.booleans())
-        if algo != "MC":
+        if algo not in ("MC", "PoissonDisk"):  # a saturated PoissonDisk hands a single point to the optimiser (ValueError)
             opt = draw(st.sampled_from([None] * 8 + ["lloyd", "random-cd"]))
             if opt == "lloyd" and d < 2:
                 opt = None  # SciPy's Lloyd iteration rejects dimension 1 with a ValueError
             if opt is not None:
                 s["optimization"] = opt
-                s["n_samples"] = max(2, min(s["n_samples"], 12))  # SciPy's optimisers need two points (ValueError otherwise)
+                # SciPy's optimisers need two points (ValueError otherwise), Lloyd's Voronoi diagram d+2 (QhullError)
+                s["n_samples"] = max(2 * d + 2 if opt == "lloyd" else 2, min(s["n_samples"], 12))
         if algo == "LHS" and draw(st.integers(0, 5)) == 0:
             primes = [p for p in (2, 3, 5, 7) if d <= p + 1]
             s["strength"] = 2
@@ -137,7 +146,7 @@ def settings_for(draw, algo: str, space, with_seed: bool = True):
             s.pop("optimization", None)
         if algo == "PoissonDisk":
             if draw(st.booleans()):
-                s["radius"] = draw(st.sampled_from([0.01, 0.05, 0.1, 0.2]))
+                s["radius"] = draw(st.sampled_from([0.01, 0.05, 0.1, 0.2] if d <= 2 else [0.05, 0.1, 0.2]))
             if draw(st.booleans()):
                 s["hypersphere"] = draw(st.sampled_from(["volume", "surface"]))
             if draw(st.booleans()):
@@ -156,7 +165,7 @@ def settings_for(draw, algo: str, space, with_seed: bool = True):
     elif algo in OT_STRATIFIED:
         m = {"OT_AXIAL": 2 * d, "OT_FACTORIAL": 2**d, "OT_COMPOSITE": 2 * d + 2**d}[algo]
         if draw(st.booleans()):
-            s["n_samples"] = 1 + m * draw(st.integers(1, 3)) + draw(st.integers(0, m - 1))
+            s["n_samples"] = 1 + m * draw(st.integers(1, 3)) + draw(_remainder(m))
         else:
             s["levels"] = sorted(draw(st.lists(st.sampled_from([0.1, 0.25, 0.5, 0.8, 1.0, 0.05]), min_size=1, max_size=3, unique=True)))
             centre = st.sampled_from([0.5, 0.3, 0.25, 0.9, 0.05])
@@ -169,7 +178,8 @@ def settings_for(draw, algo: str, space, with_seed: bool = True):
         mode = draw(st.sampled_from(["n", "n", "scalar", "list"]))
         top = 4 if d <= 3 else 3
         if mode == "n":
-            s["n_samples"] = draw(st.one_of(st.integers(1, 60), st.integers(1, 300)))
+            k = draw(st.integers(1, 4 if d <= 3 else 3))
+            s["n_samples"] = draw(st.one_of(st.integers(1, 60), st.integers(1, 300), st.sampled_from([k**d, max(1, k**d - 1), k**d + 1])))
         elif mode == "scalar":
             s["levels"] = draw(st.integers(1, top))
         else:
@@ -179,12 +189,20 @@ def settings_for(draw, algo: str, space, with_seed: bool = True):
         if second is not None:
             s["eval_second_order"] = second
         block = d + 2 if (second is False or d == 2) else 2 * d + 2
-        s["n_samples"] = block * draw(st.integers(1, 4)) + draw(st.integers(0, block - 1))
+        s["n_samples"] = block * draw(st.integers(1, 4)) + draw(_remainder(block))
     elif algo == "PYDOE_LHS":
         s["n_samples"] = draw(st.integers(1, 40))
         crit = draw(st.sampled_from([None, None, "center", "c", "maximin", "m", "centermaximin", "cm", "correlation", "corr", "lhsmu"]))
+        if crit in ("correlation", "corr"):
+            # pyDOE takes the maximum over the off-diagonal correlations != 1: empty in dimension 1 or with two points
+            if d < 2:
+                crit = None
+            else:
+                s["n_samples"] = max(3, s["n_samples"])
         if crit is not None:
             s["criterion"] = crit
+            if crit not in ("center", "c", "lhsmu"):
+                s["n_samples"] = max(2, s["n_samples"])  # pyDOE's distance/correlation criteria need two points (ValueError)
         if draw(st.booleans()):
             s["iterations"] = draw(st.integers(1, 5))
     elif algo == "DiagonalDOE":
@@ -199,7 +217,7 @@ def settings_for(draw, algo: str, space, with_seed: bool = True):
             inner = "PYDOE_LHS"
         inner_settings: dict = {}
         if draw(st.booleans()):
-            s["n_samples"] = (d + 1) * draw(st.integers(1, 6)) + draw(st.integers(0, d))
+            s["n_samples"] = (d + 1) * draw(st.integers(1, 6)) + draw(_remainder(d + 1))
         elif draw(st.booleans()):
             inner_settings["n_samples"] = draw(st.integers(1, 6))
         if with_seed and draw(st.booleans()):
@@ -211,7 +229,7 @@ def settings_for(draw, algo: str, space, with_seed: bool = True):
     elif algo == "CustomDOE":
         n = draw(st.integers(1, 12))
         s["_custom"] = {
-            "form": draw(st.sampled_from(["array", "array", "dict", "dicts", "file"])),
+            "form": draw(st.sampled_from(["array", "dict", "dicts", "dicts", "dicts", "file"])),
             "t": [[draw(st.integers(0, 8)) for _ in range(d)] for _ in range(n)],
         }
     if with_seed and algo in SEED_KEY and draw(st.integers(0, 3)) > 0:
@@ -222,7 +240,7 @@ def settings_for(draw, algo: str, space, with_seed: bool = True):
 @st.composite
 def cases(draw, routes):
     algo = draw(st.sampled_from(ALGOS))
-    space = draw(spaces())
+    space = draw(spaces(max_dim=MAX_DIM.get(algo, 5)))
     return {
         "algo": algo, "space": space, "settings": draw(settings_for(algo, space)),
         "route": draw(st.sampled_from(routes)), "rng": draw(st.integers(0, 2**31 - 1)),
@@ -232,7 +250,7 @@ def cases(draw, routes):
 @st.composite
 def seed_cases(draw):
     algo = draw(st.sampled_from(ALGOS))
-    space = draw(spaces())
+    space = draw(spaces(max_dim=MAX_DIM.get(algo, 5)))
     calls = draw(st.lists(st.one_of(st.none(), SEEDS), min_size=1, max_size=3))
     return {
         "algo": algo, "space": space, "settings": draw(settings_for(algo, space, with_seed=algo == "MorrisDOE")),
@@ -475,6 +493,20 @@ def check_unit_and_image(p, ctx, samples, unit, oracle: str, where: str):
         ctx.fail(f"{oracle}:image", f"{where}: sample {i} component {c} is {samples[i, c]!r}, the image of the unit sample {unit[i, c]!r} is {image[i, c]!r}")
 
 
+def check_custom(p, ctx, values, oracle: str):
+    """A custom DOE is the user's points, column for column.
+
+    The unit samples are derived from them (not the converse), so the image oracle does not apply;
+    transform-then-untransform and the CSV parser may each move a float component by an ulp: 8 ulps granted.
+    """
+    lb, ub, is_int = flat(p["space"])
+    pts = custom_points(p["space"], p["settings"]["_custom"]["t"])
+    tol = 8 * EPS * np.maximum(1.0, np.maximum(np.abs(lb), np.abs(ub)))
+    ctx.check(values.shape == pts.shape and bool(np.all(np.abs(values - pts) <= tol)), f"{oracle}:custom",
+              "the custom DOE is not the given samples", got=values[:3], given=pts[:3])
+    ctx.check(bool(np.all(values[:, is_int] == pts[:, is_int])), f"{oracle}:custom", "integer components of the custom samples were altered")
+
+
 def classify(p, ctx, oracle: str):
     lb, ub, is_int = flat(p["space"])
     d = lb.size
@@ -491,6 +523,9 @@ def classify(p, ctx, oracle: str):
         ctx.cls("component_with_lb==ub")
     seeded = any(k in p["settings"] for k in ("seed", "random_state"))
     ctx.cls("explicit_seed" if seeded else "default_seed")
+    if "_custom" in p["settings"]:
+        names = [v["name"] for v in p["space"]]
+        ctx.cls(f"custom:{p['settings']['_custom']['form']}" + ("" if names == sorted(names) else ":names_not_in_alphabetical_order"))
     off_unit = bool(np.any((lb != 0.0) | (ub != 1.0)))
     if off_unit and (d >= 2 or is_int.any()):
         ctx.nontriv((oracle, p["algo"], p["space"], p["settings"], p["route"]))
@@ -502,8 +537,16 @@ def same_rows(a: np.ndarray, b: np.ndarray) -> bool:
 
 
 # --------------------------------------------------------------------------- oracles
+def excluded(p, ctx) -> bool:
+    """Input classes of open ledger entries."""
+    custom = p["settings"].get("_custom")
+    return bool(custom and custom["form"] == "dict" and len(p["space"]) >= 2 and ctx.known("custom_dict_of_2d_arrays_multi_variable"))
+
+
 def case_compute(p, ctx):
     """compute_doe through the library (keywords or settings model) or gemseo.compute_doe."""
+    if excluded(p, ctx):
+        return
     reseed(p["rng"])
     lb, ub, is_int = flat(p["space"])
     run = call(p, p["route"])
@@ -511,11 +554,7 @@ def case_compute(p, ctx):
     ctx.check(run.flag_after == run.flag_before, "compute:space_restored",
               "enable_integer_variables_normalization of the design space was changed by compute_doe")
     if p["algo"] == "CustomDOE":
-        # the samples are the user's points (transform then untransform: a few ulps)
-        pts = custom_points(p["space"], p["settings"]["_custom"]["t"])
-        tol = 8 * EPS * np.maximum(1.0, np.maximum(np.abs(lb), np.abs(ub)))
-        ctx.check(bool(np.all(np.abs(values - pts) <= tol)), "compute:custom", "the custom DOE is not the given samples", got=values[:3], given=pts[:3])
-        ctx.check(bool(np.all(values[:, is_int] == pts[:, is_int])), "compute:custom", "integer components of the custom samples were altered")
+        check_custom(p, ctx, values, "compute")
     else:
         reseed(p["rng"] + 1)
         unit = call(p, p["route"], unit_sampling=True).samples
@@ -543,6 +582,8 @@ def case_compute(p, ctx):
 
 def case_execute(p, ctx):
     """library.execute / DOELibraryFactory.execute on a trivial problem."""
+    if excluded(p, ctx):
+        return
     reseed(p["rng"])
     lb, ub, is_int = flat(p["space"])
     run = call(p, p["route"])
@@ -551,7 +592,10 @@ def case_execute(p, ctx):
     xs = [np.asarray(x, dtype=float) for x in run.database_x]
     if run.samples is not None:
         values = check_samples(p, ctx, run.samples, "execute", "library.samples")
-        check_unit_and_image(p, ctx, values, run.unit, "execute", "library.samples")
+        if p["algo"] == "CustomDOE":
+            check_custom(p, ctx, values, "execute")
+        else:
+            check_unit_and_image(p, ctx, values, run.unit, "execute", "library.samples")
         # database keys: every sample is stored, every stored point is a sample, in the order of first appearance
         firsts = []
         for row in values:
@@ -590,6 +634,8 @@ def case_seed(p, ctx):
     """Repetition is bit-identical; the default seed sequence of one library is reproduced by explicit seeds."""
     from gemseo.algos.doe.factory import DOELibraryFactory
 
+    if excluded(p, ctx):
+        return
     algo, route = p["algo"], p["route"]
     key = SEED_KEY.get(algo)
     library = DOELibraryFactory().create(algo)
@@ -612,7 +658,7 @@ def case_seed(p, ctx):
     if key and len(outs) >= 2 and outs[0].shape == outs[1].shape and outs[0].size >= 2:
         eff = [s if s is not None else i for i, s in enumerate(p["calls"], 1)]
         if eff[0] != eff[1]:
-            ctx.cls("different_seeds_same_samples" if np.array_equal(outs[0], outs[1]) else "different_seeds_different_samples")
+            ctx.cls(f"seed_effect:{algo}:{'same' if np.array_equal(outs[0], outs[1]) else 'different'}_samples_for_different_seeds")
     if any(s is None for s in p["calls"][1:]) and key:
         ctx.cls("default_seed_after_first_call")
     classify(p, ctx, "seed")
@@ -623,6 +669,6 @@ ORACLES = {"compute": case_compute, "execute": case_execute, "seed": case_seed}
 
 
 def run(ctx):
-    ctx.drive("compute", cases(["lib", "lib", "top", "model"]), case_compute, quick=420, thorough=4000)
-    ctx.drive("execute", cases(["exec", "exec", "exec_factory"]), case_execute, quick=200, thorough=2000)
-    ctx.drive("seed", seed_cases(), case_seed, quick=160, thorough=1500)
+    ctx.drive("compute", cases(["lib", "lib", "top", "model"]), case_compute, quick=1000, thorough=5000)
+    ctx.drive("execute", cases(["exec", "exec", "exec_factory"]), case_execute, quick=450, thorough=2500)
+    ctx.drive("seed", seed_cases(), case_seed, quick=350, thorough=2000)
